@@ -167,6 +167,22 @@ Section Driver.
                  end
     end.
 
+  (* find-one-and-modify: the document is selected and projected inside the
+     transaction callback; a failing projection makes the callback return the
+     error (the implicit transaction is then aborted; a session transaction
+     the call was routed to keeps the write) *)
+  Definition project_in_txn (proj : option doc) (after : bool)
+             (x : catalog * gen * (tresult + ekind)) : catalog * gen * (reply + ekind) :=
+    let '(c', g', r) := x in
+    match r with
+    | inr e => (c', g', inr e)
+    | inl tr =>
+        match reply_doc proj (pick_doc tr after) with
+        | RErr e => (c', g', inr e)
+        | rp => (c', g', inl rp)
+        end
+    end.
+
   Definition upd_reply (tr : tresult) : reply :=
     match t_upserted tr with
     | Some sd => RUpdate 0 0 1 (id_of sd)
@@ -271,20 +287,18 @@ Section Driver.
         (ds', match r with inr e => RErr e | inl tr => RDelete (len (t_matched tr)) end)
     | CFindOneAndUpdate sid h q u sort proj upsert after afs =>
         let '(ds', r) := use_write ds sid (fun cat g =>
-            txn_update matchf applyf extractf cat g h q sort u 0 1 upsert afs now) in
-        (ds', match r with inr e => RErr e | inl tr => reply_doc proj (pick_doc tr after) end)
+            project_in_txn proj after (txn_update matchf applyf extractf cat g h q sort u 0 1 upsert afs now)) in
+        (ds', match r with inr e => RErr e | inl rp => rp end)
     | CFindOneAndReplace sid h q repl sort proj upsert after =>
         if first_key_dollar repl then (ds, RErr EErr)
         else
           let '(ds', r) := use_write ds sid (fun cat g =>
-              txn_replace matchf applyf extractf cat g h q sort repl upsert now) in
-          (ds', match r with inr e => RErr e | inl tr => reply_doc proj (pick_doc tr after) end)
+              project_in_txn proj after (txn_replace matchf applyf extractf cat g h q sort repl upsert now)) in
+          (ds', match r with inr e => RErr e | inl rp => rp end)
     | CFindOneAndDelete sid h q sort proj =>
-        let '(ds', r) := use_write ds sid (fun cat g => txn_delete matchf cat g h q sort 0 1) in
-        (ds', match r with
-              | inr e => RErr e
-              | inl tr => reply_doc proj (match t_matched tr with m :: _ => Some (snd m) | [] => None end)
-              end)
+        let '(ds', r) := use_write ds sid (fun cat g =>
+            project_in_txn proj false (txn_delete matchf cat g h q sort 0 1)) in
+        (ds', match r with inr e => RErr e | inl rp => rp end)
     | CBulk sid h ops ordered =>
         if existsb (fun op => match op with BReplace _ rp _ _ => first_key_dollar rp | _ => false end) ops
         then (ds, RErr EErr)
